@@ -8550,9 +8550,21 @@ pub fn recover_from_frames_and_commits(
     mode: RecoveryAccessMode,
 ) -> Result<RecoveryScanReport, WalRecoveryError> {
     validate_recovery_frame_order(frames)?;
+    // Commit markers must tile the committed LSN range in order: a duplicated marker, a
+    // marker removed from the middle (orphan frames below a later commit) or markers out
+    // of order are damage, not history.
+    let mut ordered_commits = commits.iter().collect::<Vec<_>>();
+    ordered_commits.sort_by_key(|commit| commit.first_lsn);
+    let mut expected_first_lsn = frames.iter().map(|frame| frame.header.lsn).min();
+    for commit in &ordered_commits {
+        if Some(commit.first_lsn) != expected_first_lsn {
+            return Err(WalValidationError::LsnContinuityMismatch.into());
+        }
+        expected_first_lsn = commit.last_lsn.checked_next();
+    }
     let mut recovered = Vec::new();
     let mut last_committed_lsn = None;
-    for commit in commits {
+    for commit in ordered_commits {
         let tx_frames: Vec<WalFrame> = frames
             .iter()
             .filter(|frame| {
